@@ -117,7 +117,8 @@ Theorem request_mask_correct :
 Proof. exact ItpRequest.request_mask_correct. Qed.
 Print Assumptions request_mask_correct.
 
-(* ... with assertions.push moved after insertFormula (proposed_fixes/C08_assertions_index.diff) rejected asserts are harmless ... *)
+(* ... with assertions.push after insertFormula (/repo commit 125fd6d — the tree as it is now; checks/C08.py recognises the variant in
+   src/api/Interpret.cc) rejected asserts are harmless ... *)
 Theorem request_mask_correct_fixed :
   forall (h : list ev) (groups : list (list nat)),
     NoDup (flat_map (fun e => match e with EAssert t true => [t] | _ => [] end) h) ->
@@ -126,20 +127,29 @@ Theorem request_mask_correct_fixed :
 Proof. exact ItpRequest.request_mask_correct_fixed. Qed.
 Print Assumptions request_mask_correct_fixed.
 
-(* ... and wrong in general: rejected assert (index shift), re-assertion after pop, duplicate term, folding `and` group
+(* ... and wrong in general, for the repaired front end too: re-assertion after pop, duplicate term, folding `and` group
    (refused / wrong mask).  Each witness is replayed on the implementation by corpus/C08. *)
 Theorem request_mask_correct_refuted :
-  impl_masks (run false h_rejected) [] [[0]; [1; 2]] = Some [[1]]
-  /\ spec_masks [] [[0]; [1; 2]] = [[0]]
-  /\ impl_masks (run false h_popped) [] [[2]; [0; 3]] = Some [[1]]
+  impl_masks (run true h_popped) [] [[2]; [0; 3]] = Some [[1]]
   /\ spec_masks [] [[2]; [0; 3]] = [[2]]
-  /\ impl_masks (run false h_dup) [] [[2; 1; 3]; [0]] = Some [[1; 3]]
+  /\ impl_masks (run true h_dup) [] [[2; 1; 3]; [0]] = Some [[1; 3]]
   /\ spec_masks [] [[2; 1; 3]; [0]] = [[2; 1; 3]]
-  /\ impl_masks (run false h_fold) [] [[1; 2]; [0]] = None
-  /\ impl_masks (run false h_fold2) [] [[3; 0]; [1; 2]] = Some [[3]]
-  /\ spec_masks [] [[3; 0]; [1; 2]] = [[3; 0]].
+  /\ impl_masks (run true h_fold) [] [[1; 2]; [0]] = None
+  /\ impl_masks (run true h_fold2) [] [[3; 0]; [1; 2]] = Some [[3]]
+  /\ spec_masks [] [[3; 0]; [1; 2]] = [[3; 0]]
+  /\ run true h_popped = run false h_popped /\ run true h_dup = run false h_dup
+  /\ run true h_fold = run false h_fold /\ run true h_fold2 = run false h_fold2.
 Proof. exact ItpRequest.request_mask_correct_refuted. Qed.
 Print Assumptions request_mask_correct_refuted.
+
+(* The front end before /repo commit 125fd6d: a rejected non-Bool assert shifted the indices (DESIGN §9 #7,
+   corpus/C08/index_shift_rejected_assert.smt2); the repaired one (the tree as it is now) computes the requested mask. *)
+Theorem request_mask_unrepaired_refuted :
+  impl_masks (run false h_rejected) [] [[0]; [1; 2]] = Some [[1]]
+  /\ spec_masks [] [[0]; [1; 2]] = [[0]]
+  /\ impl_masks (run true h_rejected) [] [[0]; [1; 2]] = Some [[0]].
+Proof. exact ItpRequest.request_mask_unrepaired_refuted. Qed.
+Print Assumptions request_mask_unrepaired_refuted.
 
 (* ---- non-vacuity ---------------------------------------------------------------------------------- *)
 (* A = { p \/ q, not q } (partition 0), B = { not p \/ r, not r } (partition 1); the refutation resolves on q, r, p. *)
